@@ -398,6 +398,7 @@ class C14_add_special(Lemma):
                  'B.pos_bound': 'RealFloat | PosInf', 'B.neg_bound': 'RealFloat | NegInf'}
     split = ['A.prec', 'A.exp', 'A.pos_bound', 'A.neg_bound']
     properties = ['C14']
+    no_use = ['RealFloat___add__', 'RealFloat___radd__', 'RealFloat___rsub__', 'RealFloat___neg__']      # float operands (unbounded bounds) are inlined, not taken from the C05 contracts (symbolic float results)
     options = {'light_first': True, 'theory_light': True}
 
     def pre(A, B, a, b):
@@ -457,7 +458,7 @@ class C14_sub_special(Lemma):
                  'B.pos_bound': 'RealFloat | PosInf', 'B.neg_bound': 'RealFloat | NegInf'}
     split = ['A.prec', 'A.exp', 'A.pos_bound', 'A.neg_bound']
     properties = ['C14']
-    no_use = ['RealFloat.__sub__']      # x - y inlined as x + (-y): the C05 contract of __sub__ (added later) does not give the result exponent
+    no_use = ['RealFloat.__sub__', 'RealFloat___add__', 'RealFloat___radd__', 'RealFloat___rsub__', 'RealFloat___neg__']      # x - y inlined as x + (-y): the C05 contract of __sub__ (added later) does not give the result exponent
     options = {'light_first': True, 'theory_light': True}
 
     def pre(A, B, a, b):
